@@ -452,5 +452,8 @@ func runC11(r *Run) {
 	}
 	// ------------------------------------------------------------------ part 4
 	c11SweepRounds(r)
-	r.Finish("part 1: sequential histories (60..260 operations, or enough to overflow a shard) of store / get / flush / len on pkg/cache.Cache for configured sizes {-5, 0, 1, 63, 64, 100, 1024, 1025, 1100, 2048, 4097} with keys hashed into one hot shard and across shards, expiry already past / 25 ms ahead / far ahead, eviction victims read back after every store; sweep histories with a 15 ms cleaner; part 2: 8 goroutines x 1500 operations (store / get / flush / len / range, short expiries, 5 ms cleaner) over 120 keys in 3 shards with logical timestamps: every hit is checked for foreign, expired, overwritten or flushed values, every Len / Range count against the capacity; part 3: bursts of 6 simultaneous lookups of one just-expired key followed by get / range / len / store / get on it; part 4 (exported API only): lookups in flight across the expiry sweep: 2..3 writers storing values that live 20 us .. 3 ms and carry key, store number and expiry, 3..40 readers, the cache's own cleaner every 1 us .. 1 ms, rounds with 24-byte values under forced collections and more goroutines than processors, and rounds with 16 / 64 / 256 KiB values whose every cache line repeats the value's stamp: every hit must be a value some store wrote (not zero, not a mixture), stored under the looked-up key, with the expiry it was stored with, not expired when the lookup began; parts 2-4 run a second time under the race detector")
+	// ------------------------------------------------------------------ parts 5 and 6
+	c11MapParts(r)
+	c11LruParts(r)
+	r.Finish("part 1: sequential histories (60..260 operations, or enough to overflow a shard) of store / get / flush / len on pkg/cache.Cache for configured sizes {-5, 0, 1, 63, 64, 100, 1024, 1025, 1100, 2048, 4097} with keys hashed into one hot shard and across shards, expiry already past / 25 ms ahead / far ahead, eviction victims read back after every store; sweep histories with a 15 ms cleaner; part 2: 8 goroutines x 1500 operations (store / get / flush / len / range, short expiries, 5 ms cleaner) over 120 keys in 3 shards with logical timestamps: every hit is checked for foreign, expired, overwritten or flushed values, every Len / Range count against the capacity; part 3: bursts of 6 simultaneous lookups of one just-expired key followed by get / range / len / store / get on it; part 4 (exported API only): lookups in flight across the expiry sweep: 2..3 writers storing values that live 20 us .. 3 ms and carry key, store number and expiry, 3..40 readers, the cache's own cleaner every 1 us .. 1 ms, rounds with 24-byte values under forced collections and more goroutines than processors, and rounds with 16 / 64 / 256 KiB values whose every cache line repeats the value's stamp: every hit must be a value some store wrote (not zero, not a mixture), stored under the looked-up key, with the expiry it was stored with, not expired when the lookup began; part 5 (pkg/concurrent_map.Map directly): sequential histories of Set / Get / Del / TestAndSet / RangeDo with setting and deleting callbacks / Flush / Len replayed on the model, and forced overlaps: the callback of a RangeDo pass starts another goroutine's Set of the visited key / Set of a new key into a full shard (on all 64 shards) / TestAndSet / Flush on the shard being visited and lingers 300 us; when both have returned every key and Len are read and must be what 'pass, then the other operation' or the opposite order leaves (reference and model list both): a value derived from an overwritten one, a flushed entry that is back, or Len above the capacity is a failure, a lost entry is not; part 6 (pkg/lru, pkg/concurrent_lru): sequential histories of Add / Get / Del / PopOldest / Clean / Flush / Len on LRU, ConcurrentLRU and ShardedLRU (1..8 shards, maxima 1..5, one operation in three on the previous operation's key) with the onEvict arguments recorded, replayed on the model; every hit must be the value most recently added under that key and not flushed, Len <= shards * max; concurrent histories (8 goroutines x 1500 operations, 1..64 shards) with logical timestamps checked per hit for foreign, overwritten or flushed values; parts 2-6 run a second time under the race detector")
 }
